@@ -52,6 +52,10 @@ Agree(m, v) ==
   /\ RespEq(m.resp, v.resp)
   /\ StateEq(m, v)
 
+\* C19 at the level of the implementation model: while the stored program has compile-time errors
+\* no opcode of it is ever about to execute
+ErrorsBlock(v) == (v.ierr # {} /\ v.st \in {"Running", "InputRunning"} /\ v.wait = "") => v.pc >= v.entry
+
 \* which part of the agreement fails (for diagnosing a counterexample)
 AgreeParts(m, v) ==
   [mode |-> ((m.mode = "input") <=> (v.wait = "input")), resp |-> RespEq(m.resp, v.resp),
